@@ -326,19 +326,6 @@ fn bytes_spec_bm_freeze() {
     assert!(f.len() == n && same(&f[..], &b[..n]));
     std::mem::forget(f);
 }
-/// BytesMut::reserve keeps the octets (buffers of at most 4 octets, reservations of at most 16)
-#[kani::proof]
-#[kani::unwind(6)]
-fn bytes_spec_bm_reserve() {
-    let (b, n) = any_buf4();
-    let mut m = BytesMut::from(&b[..n]);
-    let extra: usize = kani::any();
-    kani::assume(extra <= 16);
-    m.reserve(extra);
-    assert!(same(&m[..], &b[..n]));
-    std::mem::forget(m);
-}
-
 /// BytesMut / BufMut: new, with_capacity, put_u8 / put_u32 / put_u64 / extend_from_slice append big-endian octets
 #[kani::proof]
 #[kani::unwind(10)]
@@ -379,28 +366,43 @@ fn bytes_spec_b_basic() {
     std::mem::forget(c);
     std::mem::forget(x);
 }
-/// Bytes: split_to / advance / get_u8 / get_u32 (buffers of at most 4 octets)
+/// Bytes::split_to (buffers of at most 4 octets)
 #[kani::proof]
 #[kani::unwind(6)]
-fn bytes_spec_b_consume() {
+fn bytes_spec_b_split_to() {
     let (b, n) = any_buf4();
     let mut x = Bytes::copy_from_slice(&b[..n]);
-    let which: u8 = kani::any();
-    if which == 0 {
-        let at: usize = kani::any();
-        kani::assume(at <= n);
-        let head = x.split_to(at);
-        assert!(same(&head[..], &b[..at]) && same(&x[..], &b[at..n]));
-        std::mem::forget(head);
-    } else if which == 1 {
-        let k: usize = kani::any();
-        kani::assume(k <= n);
-        x.advance(k);
-        assert!(same(&x[..], &b[k..n]));
-    } else if which == 2 && n >= 1 {
+    let at: usize = kani::any();
+    kani::assume(at <= n);
+    let head = x.split_to(at);
+    assert!(same(&head[..], &b[..at]) && same(&x[..], &b[at..n]));
+    std::mem::forget(head);
+    std::mem::forget(x);
+}
+/// Bytes::advance (buffers of at most 4 octets)
+#[kani::proof]
+#[kani::unwind(6)]
+fn bytes_spec_b_advance() {
+    let (b, n) = any_buf4();
+    let mut x = Bytes::copy_from_slice(&b[..n]);
+    let k: usize = kani::any();
+    kani::assume(k <= n);
+    x.advance(k);
+    assert!(same(&x[..], &b[k..n]));
+    std::mem::forget(x);
+}
+/// Bytes::get_u8 / get_u32 (buffers of at most 4 octets)
+#[kani::proof]
+#[kani::unwind(6)]
+fn bytes_spec_b_get() {
+    let (b, n) = any_buf4();
+    let mut x = Bytes::copy_from_slice(&b[..n]);
+    if kani::any() {
+        kani::assume(n >= 1);
         let v = x.get_u8();
         assert!(v == b[0] && same(&x[..], &b[1..n]));
-    } else if which == 3 && n >= 4 {
+    } else {
+        kani::assume(n == 4);
         let v = x.get_u32();
         assert!(v == u32::from_be_bytes(b) && x.len() == 0);
     }
